@@ -14,7 +14,7 @@ summaries bottom-up over the (acyclic) call graph; unknown externals and
 indirect calls leave the flag unchanged (the library's only indirect calls are
 the storage callbacks).
 """
-from . import ir
+from . import ceval, ir
 
 # the checker reports an imbalance by calling abort(); other noreturn callees
 # (C++ terminate / throw on exception-cleanup paths) merely end the path
@@ -107,36 +107,47 @@ def _run(f, gname, entry, domain, summaries, module):
             raise RuntimeError("typestate fixpoint did not converge in " + f.name)
         b = work.pop()
         S = set(IN[b.name])
-        cur = {}          # ssa id -> "is the current flag value"
-        cmpinfo = {}      # ssa id -> (pred, const) on current flag value
+        loads = []        # ssa ids holding the current flag value
+        derived = []      # instructions computed only from the flag value and constants (evaluated per flag value)
+        dset = set()
+
+        def evaluate(val, v):
+            """value of ssa `val` when the flag holds v (None = not determined by the flag)"""
+            c = ir.const_int(val)
+            if c is not None:
+                return c
+            if not ir.is_local(val) or val not in dset:
+                return None
+            env = {l: v for l in loads}
+            for d in derived:
+                r = ceval.step(d, env)
+                if r is None:
+                    return None
+                env[d.id] = r
+                if d.id == val:
+                    return r
+            return env.get(val)
         for i in b.insts:
-            if not S and i.op not in ("br", "switch", "ret", "unreachable"):
-                # dead under this entry value
-                pass
             if i.op == "load" and i.ops and i.ops[0] == gname:
-                cur[i.id] = True
+                loads.append(i.id)
+                dset.add(i.id)
                 continue
-            if i.op in ("zext", "sext", "trunc") and i.ops and ir.is_local(i.ops[0]) \
-                    and cur.get(i.ops[0]):
-                cur[i.id] = True
+            if i.id and i.op in ("zext", "sext", "trunc", "icmp", "xor", "and", "or", "select", "add", "sub") and \
+                    all(ir.const_int(o) is not None or (ir.is_local(o) and o in dset) for o in i.ops) and \
+                    any(ir.is_local(o) and o in dset for o in i.ops):
+                derived.append(i)
+                dset.add(i.id)
                 continue
-            if i.op == "icmp":
-                a, c = i.ops
-                if ir.is_local(a) and cur.get(a) and ir.const_int(c) is not None:
-                    cmpinfo[i.id] = (i.d["pred"], ir.const_int(c))
-                elif ir.is_local(c) and cur.get(c) and ir.const_int(a) is not None:
-                    cmpinfo[i.id] = (_swap(i.d["pred"]), ir.const_int(a))
-                continue
-            if i.op == "xor" and ir.is_local(i.ops[0]) and i.ops[0] in cmpinfo \
-                    and ir.const_int(i.ops[1]) in (1, -1) and i.ty == "i1":
-                p, c = cmpinfo[i.ops[0]]
-                cmpinfo[i.id] = (_neg(p), c)
-                continue
-            if i.op == "store" and gname in (i.ops[1],) :
+            if i.op == "store" and gname in (i.ops[1],):
                 c = ir.const_int(i.ops[0])
-                S = {c} if c is not None else set(full)
-                cur.clear()
-                cmpinfo.clear()
+                if c is not None:
+                    S = {c}
+                else:
+                    vals = set(evaluate(i.ops[0], v) for v in S)
+                    S = set(full) if None in vals else set(x if x < (1 << 31) else x - (1 << 32) for x in vals)
+                    if not S <= set(full):
+                        S = set(full)
+                loads, derived, dset = [], [], set()
                 continue
             if i.op in ("call", "invoke"):
                 cal = i.callee
@@ -161,18 +172,16 @@ def _run(f, gname, entry, domain, summaries, module):
                             error = [(f.name, i.where(), "call to %s with flag=%d" % (cal, v))] \
                                 + sm.error[v]
                     if new != S:
-                        cur.clear()
-                        cmpinfo.clear()
+                        loads, derived, dset = [], [], set()
                     S = new
                 continue
         t = b.term
         outs = []
         if t.op == "ret":
             exits |= S
-        elif t.op == "br" and t.ops and ir.is_local(t.ops[0]) and t.ops[0] in cmpinfo \
-                and len(t.succs) == 2:
-            p, c = cmpinfo[t.ops[0]]
-            tv = set(v for v in S if _eval(p, v, c))
+        elif t.op == "br" and t.ops and ir.is_local(t.ops[0]) and t.ops[0] in dset \
+                and len(t.succs) == 2 and all(evaluate(t.ops[0], v) is not None for v in S):
+            tv = set(v for v in S if evaluate(t.ops[0], v) & 1)
             outs = [(t.succs[0], tv), (t.succs[1], S - tv)]
         else:
             outs = [(s, S) for s in t.succs]
